@@ -43,11 +43,16 @@ import "%MOD%/wdeep"
 // hid is a type the generated package cannot write down.
 type hid int
 
+// labels cannot be written down either, but a value of it can be made as a []string.
+type labels []string
+
 // HoldS and HoldD hold members of types from a package the setup file does not import,
 // and members whose types cannot be named outside this package.
 type HoldS struct {
 	In wdeep.TS
+	k  int // hidden, and declared BEFORE the visible member that differs from it in case only
 	K  int
+	Tg labels
 	Hs []hid
 	T  int
 	Hp *hid
@@ -56,6 +61,7 @@ type HoldS struct {
 type HoldD struct {
 	In wdeep.TD
 	K  int
+	Tg labels
 	Hs []hid
 	T  hid
 	Hp *hid
@@ -177,6 +183,9 @@ func (s SrcA) Gs() string       { return s.B }
 func (s *SrcA) Gp() int         { return s.A2 }
 func (s SrcA) Ge() (int, error) { return s.A, nil }
 func (s SrcA) Gn() NIn          { return s.N }
+func (s SrcA) N3() NIn          { return s.N }
+func (n *NIn) W() bool          { return n.X > 0 }
+func (n *NIn) Pw() int          { return n.X }
 func (s SrcA) Gv()              {}
 func (s SrcA) C() int           { return s.u }
 
@@ -233,8 +242,10 @@ type DstD struct {
 // DstE holds a struct member of the very type the source has (copyable as a
 // whole) which itself has a struct member.
 type DstE struct {
-	A int
-	_ int
+	A  int
+	N3 NOut
+	N  NOut
+	_  int
 	D Deep
 	_ [2]byte
 	K int
@@ -246,15 +257,34 @@ type LMine wext.Acct
 type LMineD wext.AcctD
 
 type SrcF struct {
+	// a local unnamed struct that reads like the one inside wext.Acct - but its members are local
+	La struct {
+		hidden int
+		Shown  int
+	}
 	Ac wext.Acct
 	M  LMine
 	Z  int
+	Lz struct {
+		hidden int
+		Shown  int
+	}
 }
 
 type DstF struct {
+	La struct {
+		hidden int
+		Shown  int
+		More   bool
+	}
 	Ac wext.AcctD
 	M  LMineD
 	Z  int
+	Lz struct {
+		hidden int
+		Shown  int
+		More   bool
+	}
 }
 
 func CvNIn(n NIn) NIn          { return NIn{X: n.X + 1, Y: n.Y} }
@@ -329,6 +359,11 @@ func (w *WorldChecked) id(t types.Type) string {
 		return p.Name()
 	})
 	s = strings.ReplaceAll(s, "interface{}", "any")
+	// two types may read alike and still differ: an unnamed struct with unexported members declared in another
+	// package is not the one declared here (the members belong to different packages)
+	for prev, ok := w.ids[s]; ok && !types.Identical(prev, t); prev, ok = w.ids[s] {
+		s += "'"
+	}
 	if _, ok := w.ids[s]; !ok {
 		w.ids[s] = t
 		w.list = append(w.list, s)
@@ -513,6 +548,17 @@ func (w *WorldChecked) Table() string {
 	}
 	fmt.Fprintf(&sb, "WHasStringV == {%s}\n", strings.Join(strv, ", "))
 	fmt.Fprintf(&sb, "WSlices == {%s}\n", strings.Join(slices, ", "))
+	var selems []string
+	for _, a := range snapshot {
+		if sl, ok := w.ids[a].Underlying().(*types.Slice); ok {
+			selems = append(selems, fmt.Sprintf("%s :> %s", q(a), q(w.id(sl.Elem()))))
+		}
+	}
+	if len(selems) == 0 {
+		sb.WriteString("WSliceElem == [x \\in {} |-> \"\"]\n")
+	} else {
+		fmt.Fprintf(&sb, "WSliceElem == %s\n", strings.Join(selems, " @@ "))
+	}
 	// types the generated package can write down: a defined type of another package has to be exported
 	var nameable []string
 	for _, a := range snapshot {
